@@ -50,6 +50,11 @@ THEOREMS = [
     "Verif.C06.time_to_frame_stop",
     "Verif.C06.scan_time_window",
     "Verif.C06.scan_stamp_start",
+    "Verif.C06.crop_crop_view",
+    "Verif.C06.flip_flip_view",
+    "Verif.C06.pySliceOpt_pySliceOpt",
+    "Verif.C06.slice_line_time",
+    "Verif.C06.down_entry_timestamps",
 ]
 RULE = (
     "kymographs and scans built from generated info waves (P<=5 pixels, <=6 lines/frames, k<=3 samples per pixel, "
